@@ -443,6 +443,62 @@ def shrink(chk, ops, defaults):
     return cur
 
 
+def late_failure_scenarios(chk: Check):
+    """Loads whose only possible defect is a reference that is resolved lazily (a fuel name with no fuels/<name>.toml on
+    the search path).  Whether such a load is accepted or refused is not the property's business; what is: a load that
+    RAISES leaves the system unconfigured (Config.get() and proxy reads refused, a following valid load succeeds), and a
+    load that RETURNS leaves exactly that configuration active (a second load refused until reset).  (seeded/C18-12)"""
+    from AEIC.config import Config, config
+    variants = [({'emissions': {'fuel': name}}, via_file) for name in ('no_such_fuel', '', 'SAF', 'conventional_jetA')
+                for via_file in (False, True)]
+    for j, (data, via_file) in enumerate(variants):
+        Config.reset()
+        name = data['emissions']['fuel']
+        obs = {'setting': data, 'via_file': via_file}
+        try:
+            if via_file:
+                cf = chk.tmp / f'late_{j}.toml'
+                cf.write_text(toml_text(data))
+                Config.load(config_file=cf)
+            else:
+                Config.load(**data)
+            obs['load'] = 'returned'
+        except Exception as e:  # noqa: BLE001
+            obs['load'] = f'raised {type(e).__name__}: {str(e)[:120]}'
+        try:
+            Config.get()
+            obs['get'] = 'ok'
+        except ValueError as e:
+            obs['get'] = 'refused' if 'configuration is not set' in str(e) else f'ValueError: {e}'
+        except Exception as e:  # noqa: BLE001
+            obs['get'] = f'{type(e).__name__}: {e}'
+        try:
+            obs['proxy_read'] = ['ok', config.emissions.fuel]
+        except ValueError as e:
+            obs['proxy_read'] = 'refused' if 'configuration is not set' in str(e) else f'ValueError: {e}'
+        except Exception as e:  # noqa: BLE001
+            obs['proxy_read'] = f'{type(e).__name__}: {e}'
+        try:
+            Config.load()
+            obs['next_valid_load'] = 'returned'
+        except RuntimeError as e:
+            obs['next_valid_load'] = 'already' if 'already been initialized' in str(e) else f'RuntimeError: {e}'
+        except Exception as e:  # noqa: BLE001
+            obs['next_valid_load'] = f'{type(e).__name__}: {e}'
+        Config.reset()
+        chk.count('late-failure-scenarios:' + obs['load'].split()[0])
+        if obs['load'] == 'returned':
+            want = {'get': 'ok', 'proxy_read': ['ok', name], 'next_valid_load': 'already'}
+            what = 'a load that returned must leave exactly that configuration active'
+        else:
+            want = {'get': 'refused', 'proxy_read': 'refused', 'next_valid_load': 'returned'}
+            what = 'a load that raised must leave the system unconfigured and a following valid load must succeed'
+        bad = {k: (obs[k], v) for k, v in want.items() if obs[k] != v}
+        if bad:
+            chk.fail(f'{what}: load {obs["load"]}; observed vs required: {bad}', {'scenario': 'late-failure', **obs}, None)
+            return
+
+
 def run(chk: Check):
     chk.rule = ('histories of 2-12 operations (load with file/kwargs overlays incl. invalid values, missing files, '
                 'dict-vs-leaf shapes; reset; get; read of nested settings; attempted mutation) from one PRNG stream; '
@@ -460,6 +516,7 @@ def run(chk: Check):
     corpus = load_corpus(chk)
     hist = corpus + [gen_history(chk.rng, defaults) for _ in range(chk.n(400, 6000))]
     check_histories(chk, hist, defaults)
+    late_failure_scenarios(chk)
 
 
 def load_corpus(chk):
